@@ -41,7 +41,10 @@ TCm6 ==
     /\ Line.e = "cm6"
     /\ Line.otc = Line.tc /\ Line.ohl = Line.hl /\ Line.oifindex = Line.ifindex
     /\ (Line.src # <<>> => Line.odst = Line.src)
-    /\ (Line.n = 0) = (Line.tc = 0 /\ Line.hl = 0 /\ Line.src = <<>> /\ Line.ifindex = 0 /\ ~Line.nexthop)
+    \* (the next-hop option is not marshalled on every platform: it only excuses a non-empty encoding)
+    /\ LET nothing == Line.tc = 0 /\ Line.hl = 0 /\ Line.src = <<>> /\ Line.ifindex = 0 IN
+       /\ (Line.n = 0 => nothing)
+       /\ (nothing /\ ~Line.nexthop => Line.n = 0)
 
 TNext ==
     /\ l <= Meta.ends[cur]
